@@ -734,8 +734,38 @@ class RefCircuit(Model):
         for k, b in c.blackboxes.items():
             self.blackboxes[f"{name}_{k}"] = b
 
+    def reconvergent_fanout_nodes(self):
+        out = []
+        for node in sorted(self.nodes()):
+            fo = sorted(self.fanout(node))
+            hit = False
+            for a, b in itertools.combinations(fo, 2):
+                if ({a} | self.graph.descendants(a)) & ({b} | self.graph.descendants(b)):
+                    hit = True
+                    break
+            if hit:
+                out.append(node)
+        return iter(out)
+
+    def has_reconvergent_fanout(self):
+        return bool(list(self.reconvergent_fanout_nodes()))
+
     def kcuts(self, n, k, computed=None):
-        raise ModelRaise("NotImplementedError", "kcuts is not part of the reference model")
+        """Reference enumeration: merge the cut sets of the fan-in, keep those of size <= k, plus {n}."""
+        if computed is None:
+            computed = {}
+        if n in computed:
+            return computed[n]
+        fi = sorted(self.fanin(n))
+        cuts = [{n}]
+        if fi:
+            sets = [self.kcuts(f, k, computed) for f in fi]
+            merged = sets[0]
+            for s2 in sets[1:]:
+                merged = [a | b for a in merged for b in s2 if len(a | b) <= k]
+            cuts = [c for c in merged if len(c) <= k] + [{n}]
+        computed[n] = cuts
+        return cuts
 
     # ---- oracle helpers (underscore: invisible to evaluated code) ------
     def _snapshot(self):
